@@ -70,7 +70,7 @@ var methodsAny = []string{"GET", "POST", "PUT", "HEAD", "DELETE", "OPTIONS", "PA
 
 var nearMissCL = []string{"Content-Lengt", "Content-Length2", "X-Content-Length", "Content_Length", "Content-Lengthh",
 	"Content.Length", "Content~Length", "ContentLength", "Content-Length-", "Dontent-Length", "Content-Lengti", "Content+Length", "Content!Length", "Content|Length"}
-var nearMissTE = []string{"Transfer-Encodin", "Transfer-Encoding-X", "Transfer_Encoding", "X-Transfer-Encoding", "Transfer.Encoding", "Uransfer-Encoding", "TransferEncoding", "Transfer-Encodingg"}
+var nearMissTE = []string{"Transfer-Encodin", "Transfer-Encoding-X", "Transfer_Encoding", "X-Transfer-Encoding", "Transfer.Encoding", "Uransfer-Encoding", "TransferEncoding", "Transfer-Encodingg", "Tran\u017ffer-Encoding"}
 
 var hdrNames = []string{"X-A", "x-b", "Accept", "X-Long-Header-Name", "ACCEPT-LANGUAGE", "x-forwarded-for", "Cache-Control", "X-A", "Referer", "If-None-Match", "te", "Via"}
 var hdrVals = []string{"1", "v", "a, b", "text/html; q=0.9", "x=y; z", "0", "chunked", "close-not", "12345678901234567890", "a:b", "inner  spaces", ""}
@@ -338,7 +338,7 @@ func GenRequest(tp *core.Tape, idx int, last bool, o GenOpt) *GenReq {
 	g.HeadLen = strings.Index(string(g.Bytes), "\r\n\r\n") + 4
 	// expected generic header list
 	for _, h := range m.Headers {
-		switch strings.ToLower(h.K) {
+		switch wire.LowerASCII(h.K) {
 		case "host", "user-agent", "content-type", "content-length", "transfer-encoding", "trailer":
 			continue
 		case "connection":
